@@ -24,6 +24,8 @@ type dividerProbe struct {
 	noop     bool
 	harmless bool
 	onNil    bool
+	handlers uint
+	pending  func() int
 	all      func() []uint
 	seg      map[string]struct{}
 	order    []string
@@ -49,7 +51,18 @@ func (dp *dividerProbe) divide(priorities []uint, dividend uint, distribution ma
 	}
 	fault := idx == dp.faultAt
 	if fault && distribution == nil {
-		dp.onNil = true // the unchecked recomputation of the strategic distribution, not a division made for a round
+		// the unchecked recomputation of the strategic distribution (nil map, HandlersQuantity among ALL registered priorities)
+		// is not a division made for a round; a nil-map call over a proper subset of them is
+		whole := dividend == dp.handlers
+		if whole {
+			reg := dp.all()
+			if len(reg) != len(priorities) && len(reg) != 0 && (dp.pending == nil || dp.pending() == 0) {
+				whole = false // (while an AddInput / RemoveInput is pending the driver's view of the registration may lag)
+			}
+		}
+		if whole {
+			dp.onNil = true
+		}
 	}
 	delta := dp.delta
 	outside := dp.outside
@@ -170,7 +183,7 @@ func runPrio1Bubble(sc scenario) result {
 	}
 	pos := 7 + n
 	m := sc.int(pos)
-	probe := &dividerProbe{faultAt: -1, seg: map[string]struct{}{}}
+	probe := &dividerProbe{faultAt: -1, seg: map[string]struct{}{}, handlers: handlers}
 	probe.all = func() []uint {
 		regMu.Lock()
 		defer regMu.Unlock()
@@ -224,6 +237,11 @@ func runPrio1Bubble(sc scenario) result {
 	var pendingCmds sync.WaitGroup
 	pend := 0
 	var pendMu sync.Mutex
+	probe.pending = func() int {
+		pendMu.Lock()
+		defer pendMu.Unlock()
+		return pend
+	}
 	done := false
 	errCode := int64(0)
 	inFlightMax := 0
